@@ -317,6 +317,8 @@ pub fn profile() -> Profile {
     p.net_w = [30, 40, 15, 15, 0, 0, 0, 0, 0];
     p.p_mut = 15;
     p.lead_blocks = 14;
+    p.kind_w[7] = 4;
+    p.low_dosc_start = true;
     p
 }
 
